@@ -1885,3 +1885,358 @@ Section Gating.
            split; [exact SX|auto].
   Qed.
 End Gating.
+
+(* ================================================================ P. exact steps and the corollaries in the words of the property *)
+Section Exact.
+  Variable orc : oracles.
+  Variable clock : Z.
+
+  (* the abstract input a line carries for node n in state g *)
+  Definition request_of_line (g : gw) (l : pstr) (n : Z) : option sin :=
+    match decode l with
+    | Some m => if gvalidate orc g m && (m_type m =? 4) && (m_node m =? n) && known g n
+                then stream_input m else None
+    | None => None
+    end.
+  Definition request_of (g : gw) (o : op) (n : Z) : option sin :=
+    match line_of g o with Some l => request_of_line g l n | None => None end.
+
+  Lemma logic_session_exact g l g1 r n : cfg_ok (g_cf g) -> sess_inv (g_ota g) ->
+    logic orc clock g l = Ok (g1, r) ->
+    abs (g_ota g1) n = match request_of_line g l n with
+                       | Some i => fst (sstep (abs (g_ota g) n) i)
+                       | None => abs (g_ota g) n
+                       end.
+  Proof.
+    intros C S E. unfold request_of_line.
+    destruct (decode l) as [m|] eqn:D.
+    2:{ rewrite (rejected_is_noop orc clock g l (or_introl D)) in E. inversion E; reflexivity. }
+    destruct (gvalidate orc g m) eqn:V; cbn [andb].
+    2:{ rewrite (rejected_is_noop orc clock g l) in E by (right; exists m; auto). inversion E; reflexivity. }
+    destruct (Z.eqb_spec (m_type m) 4) as [T|NT]; cbn [andb].
+    - destruct (known g (m_node m)) eqn:K.
+      + destruct (stream_input m) as [i|] eqn:IN.
+        * destruct (logic_stream_request orc clock g l m i C S D V T K IN) as (g' & EL & _ & _ & AB & OT & _).
+          rewrite EL in E. destruct (offer_reply _ m _) as [rm|e]; cbn [bind] in E; [|discriminate].
+          inversion E; subst g1 r.
+          destruct (Z.eqb_spec (m_node m) n) as [<-|DN]; cbn [andb].
+          -- rewrite K. exact AB.
+          -- apply OT. congruence.
+        * rewrite (logic_stream_other orc clock g l m C D V T K IN) in E. inversion E; subst.
+          destruct ((m_node m =? n) && known g1 n); reflexivity.
+      + rewrite (logic_stream_unknown orc clock g l m C D V T K) in E. inversion E; subst.
+        assert (O : g_ota (if cf_ge20 (g_cf g) then add_job_send g (encode (mkMsg (m_node m) 255 3 0 19 [])) else g) = g_ota g).
+        { destruct (cf_ge20 (g_cf g)); [apply frame_add_job|reflexivity]. }
+        rewrite O. destruct (Z.eqb_spec (m_node m) n) as [<-|DN]; cbn [andb]; [rewrite K|]; reflexivity.
+    - assert (O : g_ota g1 = g_ota g).
+      { destruct (Z.eq_dec (m_type m) 0) as [T0|NT0]; [destruct (Z.eq_dec (m_child m) 255) as [CH|NCH]|].
+        - destruct (logic_node_presentation orc clock g l m C D V T0 CH) as (g' & EL & O & _).
+          rewrite EL in E. inversion E; subst. exact O.
+        - eapply logic_other_frame; try eassumption. tauto.
+        - eapply logic_other_frame; try eassumption. tauto. }
+      rewrite O. reflexivity.
+  Qed.
+
+  (* 2. session_refines at the level of steps: the session of every node after a step is the
+     automaton's, for the input the step carries for that node *)
+  Theorem session_step_exact g o n : cfg_ok (g_cf g) -> Inv orc g -> SInv g ->
+    abs (g_ota (step orc clock g o)) n =
+      match schedules g o n with
+      | Some k => Requested k
+      | None => match request_of g o n with
+                | Some i => fst (sstep (abs (g_ota g) n) i)
+                | None => abs (g_ota g) n
+                end
+      end.
+  Proof.
+    intros C IV [S I]. unfold request_of.
+    destruct (line_of g o) as [l|] eqn:L.
+    - assert (SC : schedules g o n = None) by (destruct o; try reflexivity; discriminate L). rewrite SC.
+      rewrite (step_line orc clock g o l L).
+      destruct (pre_state_facts orc g o) as (PS & PO & PC & PV).
+      assert (IV0 : Inv orc (pre_state g o)) by (destruct o; try exact IV; apply Inv_set_jobs; exact IV).
+      set (g0 := pre_state g o) in *.
+      assert (C0 : cfg_ok (g_cf g0)) by (rewrite PC; exact C).
+      assert (S0 : sess_inv (g_ota g0)) by (rewrite PO; exact S).
+      destruct (logic_total orc clock g0 l C0 IV0) as (g1 & r & E & _).
+      rewrite E. pose proof (logic_session_exact g0 l g1 r n C0 S0 E) as X.
+      assert (RQ : request_of_line g0 l n = request_of_line g l n).
+      { unfold request_of_line. destruct (decode l) as [m|]; [|reflexivity]. rewrite PV. unfold known. rewrite PS. reflexivity. }
+      rewrite RQ, PO in X. rewrite <- X.
+      destruct r as [x|]; [|reflexivity]. destruct (frame_send g1 x) as [-> _]. reflexivity.
+    - destruct o as [l0| |s c vt v mt a|ns t v b|b];
+        try (cbn [schedules];
+             assert (F : frame g (step orc clock g _)) by (apply (step_noline orc clock); [exact L|intros; discriminate]);
+             destruct F as [-> _]; reflexivity).
+      cbn [step schedules].
+      destruct (update_fw_spec g ns t v b S I) as (g' & E & _ & _ & _ & _ & _ & _ & _ & _ & SPEC).
+      rewrite E. destruct (update_key g t v b) as [[t0 v0]|] eqn:UK.
+      + destruct SPEC as (_ & _ & _ & _ & _ & _ & AB & _). rewrite AB.
+        destruct (zmem n ns && known g n); reflexivity.
+      + destruct SPEC as (SS & _). rewrite (same_sessions_abs _ _ n SS).
+        destruct (zmem n ns && known g n); reflexivity.
+  Qed.
+
+  (* ---- restart ---- *)
+  Theorem restart g ns ft fv bin n k : SInv g ->
+    update_key g ft fv bin = Some k -> zmem n ns = true -> known g n = true ->
+    exists g', update_fw g ns ft fv bin = Ok g' /\ abs (g_ota g') n = Requested k /\ reboot_flag g' n = true.
+  Proof.
+    intros [S I] UK Z K.
+    destruct (update_fw_spec g ns ft fv bin S I) as (g' & E & _ & _ & _ & _ & _ & _ & _ & _ & SPEC).
+    exists g'. split; [exact E|]. rewrite UK in SPEC. destruct k as [t v].
+    destruct SPEC as (_ & _ & _ & _ & _ & _ & AB & RF). rewrite AB, RF, Z, K. split; reflexivity.
+  Qed.
+
+  (* an update call without a key (bad / out-of-range type or version, failed load, no stored
+     image) or naming only unknown ids changes no session and no flag *)
+  Theorem update_without_effect g ns ft fv bin : SInv g ->
+    (update_key g ft fv bin = None \/ forall n, zmem n ns = true -> known g n = false) ->
+    exists g', update_fw g ns ft fv bin = Ok g' /\
+      forall n, abs (g_ota g') n = abs (g_ota g) n /\ reboot_flag g' n = reboot_flag g n.
+  Proof.
+    intros [S I] H.
+    destruct (update_fw_spec g ns ft fv bin S I) as (g' & E & _ & _ & _ & _ & _ & _ & _ & _ & SPEC).
+    exists g'. split; [exact E|]. intro n.
+    destruct (update_key g ft fv bin) as [[t v]|].
+    - destruct H as [H|H]; [discriminate|].
+      destruct SPEC as (_ & _ & _ & _ & _ & _ & AB & RF). rewrite AB, RF.
+      destruct (zmem n ns) eqn:Z; [rewrite (H n Z)|]; split; reflexivity.
+    - destruct SPEC as (SS & _ & SE). split; [apply same_sessions_abs; exact SS|].
+      unfold reboot_flag, get_node. rewrite SE. reflexivity.
+  Qed.
+
+  (* ---- Fetching persists until an update call names the node ---- *)
+  Definition names (n : Z) (o : op) : bool :=
+    match o with UpdateFw ns _ _ _ => zmem n ns | _ => false end.
+
+  Theorem fetching_stable ops : forall g n k, cfg_ok (g_cf g) -> SInv g ->
+    abs (g_ota g) n = Fetching k -> forallb (fun o => negb (names n o)) ops = true ->
+    abs (g_ota (run orc clock g ops)) n = Fetching k.
+  Proof.
+    induction ops as [|o ops IH]; intros g n k C SI AB NO; [exact AB|].
+    cbn [forallb] in NO. apply andb_true_iff in NO as [NO1 NO2].
+    destruct (step_weak orc clock g o C SI) as (SI1 & C1 & _ & _ & MV).
+    change (run orc clock g (o :: ops)) with (run orc clock (step orc clock g o) ops).
+    apply IH; [rewrite C1; exact C|exact SI1| |exact NO2].
+    destruct (MV n) as [i NU X|ns ft fv bin k' EO _ Z _ _].
+    - rewrite X, AB. destruct i; [discriminate| | |]; reflexivity.
+    - subst o. cbn [names] in NO1. rewrite Z in NO1. discriminate.
+  Qed.
+
+  (* ---- no re-flash loop: in Fetching NO line whatsoever is answered with a config response for the node ---- *)
+  Theorem no_reflash_loop g l g' rl n k : cfg_ok (g_cf g) -> sess_inv (g_ota g) ->
+    abs (g_ota g) n = Fetching k -> logic orc clock g l = Ok (g', Some rl) ->
+    exists x, rl = encode x /\ ~ (m_node x = n /\ m_type x = 4 /\ m_sub x = 1).
+  Proof.
+    intros C S AB E.
+    destruct (decode l) as [m|] eqn:D.
+    2:{ rewrite (rejected_is_noop orc clock g l (or_introl D)) in E. discriminate. }
+    destruct (gvalidate orc g m) eqn:V.
+    2:{ rewrite (rejected_is_noop orc clock g l) in E by (right; exists m; auto). discriminate. }
+    destruct (Z.eq_dec (m_type m) 4) as [T|NT].
+    - destruct (stream_reply_gated orc clock g l m g' rl C S D V T E) as (_ & x & k' & -> & NX & _ & CASES).
+      exists x. split; [reflexivity|]. intros (N & _ & SX).
+      destruct CASES as [(_ & _ & [A|A])|(_ & SX3 & _)]; [| |lia]; rewrite <- NX, N, AB in A; discriminate.
+    - destruct (non_stream_reply orc clock g l m g' rl C D V NT E) as (x & -> & TX).
+      exists x. split; [reflexivity|tauto].
+  Qed.
+
+  (* ---- gated, per line: whatever the line, a stream message in reply goes to a known node
+     whose session is not Idle ---- *)
+  Theorem gated_reply g l g' rl : cfg_ok (g_cf g) -> sess_inv (g_ota g) ->
+    logic orc clock g l = Ok (g', Some rl) ->
+    exists x, rl = encode x /\
+      (m_type x = 4 -> known g (m_node x) = true /\ abs (g_ota g) (m_node x) <> Idle /\ (m_sub x = 1 \/ m_sub x = 3)).
+  Proof.
+    intros C S E.
+    destruct (decode l) as [m|] eqn:D.
+    2:{ rewrite (rejected_is_noop orc clock g l (or_introl D)) in E. discriminate. }
+    destruct (gvalidate orc g m) eqn:V.
+    2:{ rewrite (rejected_is_noop orc clock g l) in E by (right; exists m; auto). discriminate. }
+    destruct (Z.eq_dec (m_type m) 4) as [T|NT].
+    - destruct (stream_reply_gated orc clock g l m g' rl C S D V T E) as (K & x & k' & -> & NX & _ & CASES).
+      exists x. split; [reflexivity|]. intros _. rewrite NX. split; [exact K|].
+      destruct CASES as [(_ & SX & [A|A])|(_ & SX & [A|A])]; rewrite A; (split; [discriminate|auto]).
+    - destruct (non_stream_reply orc clock g l m g' rl C D V NT E) as (x & -> & TX).
+      exists x. split; [reflexivity|]. intro. contradiction.
+  Qed.
+
+  (* ---- the config response is repeated until the node starts fetching ---- *)
+  Theorem config_repeated_until_fetch g l m t v f :
+    cfg_ok (g_cf g) -> sess_inv (g_ota g) ->
+    decode l = Some m -> gvalidate orc g m = true -> m_type m = 4 -> m_sub m = 0 ->
+    known g (m_node m) = true -> hex_request_ok (m_payload m) 5 = true ->
+    (abs (g_ota g) (m_node m) = Requested (t, v) \/ abs (g_ota g) (m_node m) = Offered (t, v)) ->
+    fw_lookup t v (o_fw (g_ota g)) = Some f ->
+    exists g',
+      logic orc clock g l =
+        (do p <- fw_config_payload t v f; Ok (g', Some (encode (stream_reply m 1 p)))) /\
+      abs (g_ota g') (m_node m) = Offered (t, v) /\ sess_inv (g_ota g').
+  Proof.
+    intros C S D V T SB K HX AB LK.
+    apply fw_hex_to_int_ok_iff in HX as [ws HX].
+    assert (IN : stream_input m = Some CfgReq).
+    { unfold stream_input, cfg_input. rewrite SB, HX. reflexivity. }
+    destruct (logic_stream_request orc clock g l m CfgReq C S D V T K IN) as (g' & EL & S' & _ & AB' & _).
+    exists g'. rewrite EL, AB'.
+    destruct AB as [-> | ->]; cbn [sstep fst snd offer_reply]; rewrite LK;
+      (split; [destruct (fw_config_payload t v f); reflexivity|split; [reflexivity|exact S']]).
+  Qed.
+
+  (* ---- a well-formed block request for (t', v') in Offered / Fetching ---- *)
+  Theorem block_request_served g l m k rt rv rb :
+    cfg_ok (g_cf g) -> sess_inv (g_ota g) ->
+    decode l = Some m -> gvalidate orc g m = true -> m_type m = 4 -> m_sub m = 2 ->
+    known g (m_node m) = true -> fw_hex_to_int (m_payload m) 3 = Ok [rt; rv; rb] ->
+    (abs (g_ota g) (m_node m) = Offered k \/ abs (g_ota g) (m_node m) = Fetching k) ->
+    exists g',
+      logic orc clock g l =
+        match fw_lookup rt rv (o_fw (g_ota g)) with
+        | Some f => do p <- fw_response_payload rt rv rb f; Ok (g', Some (encode (stream_reply m 3 p)))
+        | None => Ok (g', None)      (* no image for the REQUESTED key: silent, but the session moves *)
+        end /\
+      abs (g_ota g') (m_node m) = Fetching k /\ sess_inv (g_ota g').
+  Proof.
+    intros C S D V T SB K HX AB.
+    assert (IN : stream_input m = Some (BlkReq (rt, rv) rb)).
+    { unfold stream_input, blk_input. rewrite SB, HX. reflexivity. }
+    destruct (logic_stream_request orc clock g l m _ C S D V T K IN) as (g' & EL & S' & _ & AB' & _).
+    exists g'. rewrite EL, AB'.
+    destruct AB as [-> | ->]; cbn [sstep fst snd offer_reply];
+      (split; [|split; [reflexivity|exact S']]);
+      destruct (fw_lookup rt rv (o_fw (g_ota g))) as [f|]; try reflexivity;
+      destruct (fw_response_payload rt rv rb f); reflexivity.
+  Qed.
+
+  (* ---- 6. termination in the sense of the property ---- *)
+  Theorem session_terminates g l1 m1 g1 r1 l2 m2 g2 r2 n k ws rt rv rb :
+    cfg_ok (g_cf g) -> SInv g -> known g n = true -> abs (g_ota g) n = Requested k ->
+    decode l1 = Some m1 -> gvalidate orc g m1 = true -> m_type m1 = 4 -> m_sub m1 = 0 -> m_node m1 = n ->
+    fw_hex_to_int (m_payload m1) 5 = Ok ws ->
+    logic orc clock g l1 = Ok (g1, r1) ->
+    decode l2 = Some m2 -> gvalidate orc g m2 = true -> m_type m2 = 4 -> m_sub m2 = 2 -> m_node m2 = n ->
+    fw_hex_to_int (m_payload m2) 3 = Ok [rt; rv; rb] ->
+    logic orc clock g1 l2 = Ok (g2, r2) ->
+    abs (g_ota g1) n = Offered k /\ abs (g_ota g2) n = Fetching k /\
+    (* from here on: no config response for n, whatever arrives, until an update call names n *)
+    (forall ops, forallb (fun o => negb (names n o)) ops = true ->
+       let g3 := run orc clock g2 ops in
+       abs (g_ota g3) n = Fetching k /\
+       forall l g' rl, logic orc clock g3 l = Ok (g', Some rl) ->
+         exists x, rl = encode x /\ ~ (m_node x = n /\ m_type x = 4 /\ m_sub x = 1)).
+  Proof.
+    intros C [S I] K AB D1 V1 T1 SB1 N1 H1 E1 D2 V2 T2 SB2 N2 H2 E2.
+    assert (IN1 : stream_input m1 = Some CfgReq) by (unfold stream_input, cfg_input; rewrite SB1, H1; reflexivity).
+    assert (IN2 : stream_input m2 = Some (BlkReq (rt, rv) rb)) by (unfold stream_input, blk_input; rewrite SB2, H2; reflexivity).
+    rewrite <- N1 in K, AB.
+    destruct (logic_stream_request orc clock g l1 m1 _ C S D1 V1 T1 K IN1)
+      as (g1' & EL1 & S1 & _ & AB1 & _ & (C1 & SE1 & _) & _).
+    rewrite EL1 in E1. destruct (offer_reply _ m1 _) as [rm|e]; cbn [bind] in E1; [|discriminate].
+    inversion E1; subst g1' r1. clear E1 EL1. rewrite AB in AB1. cbn [sstep fst] in AB1.
+    assert (Cg1 : cfg_ok (g_cf g1)) by (rewrite C1; exact C).
+    assert (K1 : known g1 (m_node m2) = true) by (rewrite N2, <- N1; unfold known; rewrite SE1; exact K).
+    assert (V2' : gvalidate orc g1 m2 = true) by (unfold gvalidate, tab in *; rewrite C1; exact V2).
+    destruct (logic_stream_request orc clock g1 l2 m2 _ Cg1 S1 D2 V2' T2 K1 IN2)
+      as (g2' & EL2 & S2 & _ & AB2 & _ & (C2 & SE2 & _) & _).
+    rewrite EL2 in E2. destruct (offer_reply _ m2 _) as [rm2|e]; cbn [bind] in E2; [|discriminate].
+    inversion E2; subst g2' r2. clear E2 EL2. rewrite N2, <- N1, AB1 in AB2. cbn [sstep fst] in AB2.
+    rewrite N1 in AB1, AB2.
+    split; [exact AB1|]. split; [exact AB2|].
+    intros ops NO g3.
+    assert (Cg2 : cfg_ok (g_cf g2)) by (rewrite C2; exact Cg1).
+    assert (SI2 : SInv g2) by (split; [exact S2|unfold ids_ok; rewrite SE2, SE1; exact I]).
+    pose proof (fetching_stable ops g2 n k Cg2 SI2 AB2 NO) as F3. fold g3 in F3.
+    split; [exact F3|].
+    destruct (run_SInv orc clock ops g2 Cg2 SI2) as [[S3 _] C3]. fold g3 in S3, C3.
+    intros l g' rl E. eapply no_reflash_loop; [rewrite C3; exact Cg2|exact S3|exact F3|exact E].
+  Qed.
+End Exact.
+
+(* ================================================================ Q. explicit payloads in reachable states *)
+
+Lemma fw_lookup_In t v l f : fw_lookup t v l = Some f -> In ((t, v), f) l.
+Proof.
+  induction l as [|[[t' v'] f'] l IH]; simpl; [discriminate|].
+  destruct (Z.eqb t t' && Z.eqb v v') eqn:E.
+  - apply andb_true_iff in E as [E1 E2]. apply Z.eqb_eq in E1, E2. subst. intro H; inversion H. left. reflexivity.
+  - intro H. right. auto.
+Qed.
+
+Section Payloads.
+  Variable orc : oracles.
+  Variable clock : Z.
+
+  Lemma config_payload_ok g n t v f : Inv orc g -> sess_inv (g_ota g) ->
+    (abs (g_ota g) n = Requested (t, v) \/ abs (g_ota g) n = Offered (t, v)) ->
+    fw_lookup t v (o_fw (g_ota g)) = Some f ->
+    fw_config_payload t v f = Ok (hexlify (le16 t ++ le16 v ++ le16 (fw_blocks f) ++ le16 (fw_crc f))).
+  Proof.
+    intros [_ (R & U & _ & FW)] (_ & _ & _ & EX) AB LK.
+    assert (W : word t /\ word v).
+    { destruct AB as [AB|AB].
+      - apply (abs_requested _ _ _ EX) in AB. exact (zassoc_Forall _ _ _ _ R AB).
+      - apply (abs_offered _ _ _ EX) in AB. exact (zassoc_Forall _ _ _ _ U AB). }
+    apply fw_lookup_In in LK. unfold fws_ok in FW. rewrite Forall_forall in FW. specialize (FW _ LK).
+    cbn [snd] in FW. destruct W as [Wt Wv]. destruct FW as [Wb Wc].
+    unfold fw_config_payload. rewrite fw_int_to_hex_ok.
+    - reflexivity.
+    - unfold words_ok. cbn [forallb]. unfold word in *. rewrite Wt, Wv, Wb, Wc. reflexivity.
+  Qed.
+
+  Lemma block_payload_ok p rt rv rb f : fw_hex_to_int p 3 = Ok [rt; rv; rb] ->
+    fw_response_payload rt rv rb f =
+      Ok (hexlify (le16 rt ++ le16 rv ++ le16 rb) ++ hexlify (fw_block (fw_data f) rb)).
+  Proof.
+    intro H. destruct (fw_int_hex_roundtrip _ _ _ H) as (_ & _ & W).
+    rewrite words_ok3 in W. apply andb_true_iff in W as [W Wb]. apply andb_true_iff in W as [Wt Wv].
+    apply fw_response_payload_ok; assumption.
+  Qed.
+
+  (* in every reachable state (images whose block count fits the 16-bit header word) a
+     well-formed config request from a node in Requested / Offered IS answered, with the
+     scheduled key, the block count and the CRC of the stored image *)
+  Theorem config_answered_reachable cf ops l m t v : cfg_ok cf -> Forall op_ok ops ->
+    let g := run orc clock (gw_init cf) ops in
+    decode l = Some m -> gvalidate orc g m = true -> m_type m = 4 -> m_sub m = 0 ->
+    known g (m_node m) = true -> hex_request_ok (m_payload m) 5 = true ->
+    (abs (g_ota g) (m_node m) = Requested (t, v) \/ abs (g_ota g) (m_node m) = Offered (t, v)) ->
+    exists f g',
+      fw_lookup t v (o_fw (g_ota g)) = Some f /\
+      logic orc clock g l =
+        Ok (g', Some (encode (stream_reply m 1
+               (hexlify (le16 t ++ le16 v ++ le16 (fw_blocks f) ++ le16 (fw_crc f)))))) /\
+      abs (g_ota g') (m_node m) = Offered (t, v).
+  Proof.
+    intros C OK g D V T SB K HX AB.
+    destruct (run_ok orc clock ops (gw_init cf) C (Inv_init orc cf) OK) as [IV CF]. fold g in IV, CF.
+    destruct (reachable_SInv orc clock cf ops C) as [[S I] _]. fold g in S, I.
+    assert (Cg : cfg_ok (g_cf g)) by (rewrite CF; exact C).
+    destruct (reachable_fw_avail orc clock cf ops C (m_node m) t v) as [f LK].
+    { fold g. destruct AB as [-> | ->]; reflexivity. }
+    fold g in LK.
+    destruct (config_repeated_until_fetch orc clock g l m t v f Cg S D V T SB K HX AB LK) as (g' & EL & AB' & _).
+    exists f, g'. split; [exact LK|]. split; [|exact AB'].
+    rewrite EL, (config_payload_ok g (m_node m) t v f IV S AB LK). reflexivity.
+  Qed.
+End Payloads.
+
+(* ================================================================ R. packaging for Props/C10.v *)
+Lemma abs_well_defined o n : sess_inv o ->
+  (forall k, abs o n = Requested k <-> zassoc n (o_requested o) = Some k) /\
+  (forall k, abs o n = Offered k <-> zassoc n (o_unstarted o) = Some k) /\
+  (forall k, abs o n = Fetching k <-> zassoc n (o_started o) = Some k) /\
+  (abs o n = Idle <-> zassoc n (o_requested o) = None /\ zassoc n (o_unstarted o) = None /\
+                      zassoc n (o_started o) = None).
+Proof.
+  intros (_ & _ & _ & E). split; [intro k; apply abs_requested; exact E|].
+  split; [intro k; apply abs_offered; exact E|]. split; [intro k; apply abs_fetching; exact E|apply abs_idle].
+Qed.
+
+Lemma reachable_invariant orc clock cf ops : cfg_ok cf ->
+  let g := run orc clock (gw_init cf) ops in
+  sess_inv (g_ota g) /\ ids_ok g /\ fw_avail (g_ota g) /\ g_cf g = cf.
+Proof.
+  intros C g. destruct (reachable_SInv orc clock cf ops C) as [[S I] CF].
+  split; [exact S|]. split; [exact I|]. split; [apply reachable_fw_avail; exact C|exact CF].
+Qed.
